@@ -9,6 +9,7 @@ import (
 	"runtime"
 	"sync"
 	"sync/atomic"
+	"time"
 
 	tally "github.com/uber-go/tally/v4"
 	"github.com/uber-go/tally/v4/multi"
@@ -126,6 +127,90 @@ func c19Caps(cached bool, pos, after int) string {
 	wg.Wait()
 	if bad != 0 {
 		return fmt.Sprintf("child %d of %d has no tagging; %d goroutines evaluated Capabilities() at the same time and one of them saw tagging = true (or reporting = false)", pos, pos+1+after, G)
+	}
+	return ""
+}
+
+// c19Dup: "every call is forwarded to every child exactly once" is per POSITION in the child list: a
+// reporter listed twice is two children (it sees every call, Flush included, twice), and two children
+// that are equal as values stay two children.
+type c19Val struct {
+	L    *Log
+	Src  int
+	Caps caps
+}
+
+func (v c19Val) Capabilities() tally.Capabilities { return v.Caps }
+func (v c19Val) Flush()                           { v.L.add(Ev{Src: v.Src, K: 6}) }
+func (v c19Val) ReportCounter(name string, tags map[string]string, x int64) {
+	v.L.add(Ev{Src: v.Src, K: 1, I: []int64{x}})
+}
+func (v c19Val) ReportGauge(name string, tags map[string]string, x float64) {
+	v.L.add(Ev{Src: v.Src, K: 2})
+}
+func (v c19Val) ReportTimer(name string, tags map[string]string, d time.Duration) {
+	v.L.add(Ev{Src: v.Src, K: 3})
+}
+func (v c19Val) ReportHistogramValueSamples(string, map[string]string, tally.Buckets, float64, float64, int64) {
+	v.L.add(Ev{Src: v.Src, K: 4})
+}
+func (v c19Val) ReportHistogramDurationSamples(string, map[string]string, tally.Buckets, time.Duration, time.Duration, int64) {
+	v.L.add(Ev{Src: v.Src, K: 5})
+}
+
+func c19Dup(shape int) (fail string) {
+	defer func() {
+		if p := recover(); p != nil {
+			fail = fmt.Sprintf("the multi reporter panicked: %v", p)
+		}
+	}()
+	log := &Log{}
+	count := func() (calls, flushes int) {
+		for _, e := range log.Snapshot() {
+			if e.K == 6 {
+				flushes++
+			} else if e.K >= 1 && e.K <= 5 {
+				calls++
+			}
+		}
+		return
+	}
+	var m tally.StatsReporter
+	what := ""
+	switch shape {
+	case 0:
+		a := &RecReporter{L: log, Src: 0, Caps: caps{true, true}}
+		b := &RecReporter{L: log, Src: 1, Caps: caps{true, true}}
+		m, what = multi.NewMultiReporter(a, b, a), "children [a, b, a] (one reporter listed twice)"
+	case 1:
+		v := c19Val{L: log, Src: 0, Caps: caps{true, true}}
+		m, what = multi.NewMultiReporter(v, v, v), "three children that are equal values of a struct type"
+	default:
+		a := &RecCached{L: log, Src: 0, Caps: caps{true, true}}
+		mc := multi.NewMultiCachedReporter(a, a)
+		mc.AllocateCounter("c", nil).ReportCount(1)
+		mc.Flush()
+		calls, flushes := 0, 0
+		for _, e := range log.Snapshot() {
+			if e.K == 21 {
+				calls++
+			}
+			if e.K == 6 {
+				flushes++
+			}
+		}
+		if calls != 2 || flushes != 2 {
+			return fmt.Sprintf("cached multi reporter with children [a, a] (one reporter listed twice): one ReportCount and one Flush reached the children %d and %d times (expected 2 and 2: once per child position)", calls, flushes)
+		}
+		return ""
+	}
+	m.ReportCounter("c", nil, 1)
+	m.ReportGauge("g", nil, 1)
+	m.ReportTimer("t", nil, time.Second)
+	m.Flush()
+	calls, flushes := count()
+	if calls != 9 || flushes != 3 {
+		return fmt.Sprintf("multi reporter with %s: three Report calls and one Flush reached the children %d and %d times (expected 9 and 3: once per child position)", what, calls, flushes)
 	}
 	return ""
 }
